@@ -1,5 +1,6 @@
 import ParolModel.Model.LL
 import ParolModel.Model.Proto
+import ParolModel.Model.Canon
 /-! Model of the generated adapter `…GrammarAuto` (C23): what
 `generators/user_trait_generator.rs` (`generate_token_assignments`, `generate_stack_pops`,
 `generate_result_builder`, `generate_push_semantic`, `generate_user_action_call`,
@@ -27,13 +28,7 @@ Out of scope: user-defined types (`: Type` annotations, conversion by `try_into`
 `minimize_boxed_types` (boxes are invisible in the AST as a value). -/
 namespace ParolModel.Ast
 
-/-- `SymbolAttribute` -/
-inductive SAttr | none | option | repAnchor | clipped
-  deriving DecidableEq, Repr
-
-/-- `ProductionAttribute` -/
-inductive PAttr | none | collStart | addToColl | optSome | optNone
-  deriving DecidableEq, Repr
+-- `SAttr` (`SymbolAttribute`) and `PAttr` (`ProductionAttribute`) are those of `Model/Ebnf.lean`.
 
 structure ASym where
   sym : Sym
@@ -104,7 +99,7 @@ structure Call where
 
 abbrev Act := Nat × List PTItem
 
-def PAttr.isColl : PAttr → Bool
+def _root_.ParolModel.PAttr.isColl : PAttr → Bool
   | .collStart => true
   | .addToColl => true
   | _ => false
@@ -296,7 +291,7 @@ def specCalls (G : AGrammar) : Forest → List Call
 
 def isCollNt (G : AGrammar) (a : Nat) : Bool := (prodsOf G a).any (fun pr => pr.attr.isColl)
 
-def PAttr.isOpt : PAttr → Bool
+def _root_.ParolModel.PAttr.isOpt : PAttr → Bool
   | .optSome => true
   | .optNone => true
   | _ => false
@@ -353,6 +348,37 @@ def startIsolated (G : AGrammar) : Bool :=
     (G.prods.all (fun pr =>
       if pr.lhs == G.start then pr.rhs == [⟨.n G.userStart, .none⟩]
       else pr.rhs.all (fun s => s.sym != .n G.userStart))))
+
+/-! ## From the output of the canonicalisation model (`Model/Canon.lean`) -/
+
+/-- The attributed grammar of plain productions with names (`RuleN`, the output of `canon`): names
+    numbered by their position in `namesN rs` (terminals of that model carry no attribute). -/
+def ofRules (ll : Bool) (st : Name) (userNts : List Name) (rs : List RuleN) : AGrammar :=
+  let ix := indexIn (namesN rs)
+  ⟨ll, ix st, ix st, userNts.map ix,
+    rs.map fun r =>
+      ⟨ix r.lhs, r.rhs.map (fun x => match x with
+        | .t a => ⟨.t a, .none⟩
+        | .n A sa => ⟨.n (ix A), sa⟩), r.attr⟩⟩
+
+mutual
+/-- A grammar as written carries no attributes but `Clipped` on non-terminals. -/
+def factorAsWritten : Factor → Bool
+  | .t _ => true
+  | .n _ sa => sa == .none || sa == .clipped
+  | .group as => altsAsWritten as
+  | .opt as => altsAsWritten as
+  | .rep as => altsAsWritten as
+def altsAsWritten : List (List Factor) → Bool
+  | [] => true
+  | a :: as => altAsWritten a && altsAsWritten as
+def altAsWritten : List Factor → Bool
+  | [] => true
+  | f :: fs => factorAsWritten f && altAsWritten fs
+end
+
+def asWritten (E : List EProd) : Bool :=
+  E.all fun p => p.alts.all fun a => a.attr == .none && altAsWritten a.fs
 
 /-! ## Rebuilding the forest from a trace (checker for the oracle; its result is validated by
 `wf` and by comparing `Forest.trace` with the given trace) -/
